@@ -90,6 +90,33 @@ type Outcome struct {
 	RealErr    string        `json:"real_err,omitempty"`
 }
 
+// wire is the transport form of Outcome: strings that may hold arbitrary
+// bytes travel as base64 ([]byte), because encoding/json replaces invalid
+// UTF-8 in strings.
+type wire struct {
+	ID                                                int
+	Class, PanicType                                  string
+	Stdout, Stderr, Err, PanicValue, RealOut, RealErr []byte
+	Ops                                               uint64
+	After                                             []AfterResult
+}
+
+// MarshalJSON implements json.Marshaler.
+func (o Outcome) MarshalJSON() ([]byte, error) {
+	return json.Marshal(wire{o.ID, o.Class, o.PanicType, []byte(o.Stdout), []byte(o.Stderr), []byte(o.Err), []byte(o.PanicValue), []byte(o.RealOut), []byte(o.RealErr), o.Ops, o.After})
+}
+
+// UnmarshalJSON implements json.Unmarshaler.
+func (o *Outcome) UnmarshalJSON(b []byte) error {
+	var w wire
+	if err := json.Unmarshal(b, &w); err != nil {
+		return err
+	}
+	*o = Outcome{ID: w.ID, Class: w.Class, PanicType: w.PanicType, Stdout: string(w.Stdout), Stderr: string(w.Stderr), Err: string(w.Err),
+		PanicValue: string(w.PanicValue), RealOut: string(w.RealOut), RealErr: string(w.RealErr), Ops: w.Ops, After: w.After}
+	return nil
+}
+
 type syncBuf struct {
 	mu  sync.Mutex
 	b   bytes.Buffer
